@@ -4,7 +4,9 @@ import (
 	"fmt"
 	"math"
 	"reflect"
+	"sort"
 	"strconv"
+	"strings"
 
 	"github.com/ah-naf/borno/ast"
 	"github.com/ah-naf/borno/environment"
@@ -953,5 +955,48 @@ func stringify(value interface{}) string {
 	if valRune, ok := value.([]rune); ok {
 		return string(valRune)
 	}
+	return formatValue(value, nil)
+}
+
+// formatValue renders a value the way fmt's %v does, except that an array or object which
+// contains itself (a[0] = a, o.self = o) is cut off with "..." where fmt would recurse until
+// the Go runtime aborts with a stack overflow.
+func formatValue(value interface{}, enclosing []uintptr) string {
+	switch v := value.(type) {
+	case []interface{}:
+		id := reflect.ValueOf(v).Pointer()
+		if len(v) > 0 && containsPointer(enclosing, id) {
+			return "[...]"
+		}
+		parts := make([]string, 0, len(v))
+		for _, element := range v {
+			parts = append(parts, formatValue(element, append(enclosing, id)))
+		}
+		return "[" + strings.Join(parts, " ") + "]"
+	case map[string]interface{}:
+		id := reflect.ValueOf(v).Pointer()
+		if containsPointer(enclosing, id) {
+			return "map[...]"
+		}
+		keys := make([]string, 0, len(v))
+		for key := range v {
+			keys = append(keys, key)
+		}
+		sort.Strings(keys)
+		parts := make([]string, 0, len(v))
+		for _, key := range keys {
+			parts = append(parts, key+":"+formatValue(v[key], append(enclosing, id)))
+		}
+		return "map[" + strings.Join(parts, " ") + "]"
+	}
 	return fmt.Sprintf("%v", value)
+}
+
+func containsPointer(list []uintptr, p uintptr) bool {
+	for _, q := range list {
+		if q == p {
+			return true
+		}
+	}
+	return false
 }
